@@ -98,7 +98,7 @@ void run(Ctx &ctx) {
     ip6_product(ctx, z.ip_groups3, z.ip_groups4, [&](const Str &s) { b.run(s.data(), (int)s.size(), true); });
     ipfuture_product(ctx, z.fut_len, [&](const Str &s) { b.run(s.data(), (int)s.size(), true); });
     if (z.octets) octet_product(ctx, [&](const Str &s) { b.run(s.data(), (int)s.size(), true); });
-    if (z.octets) { octet_sweep(ctx, [&](const Str &s) { b.run(s.data(), (int)s.size(), true); }); hexgroup_sweep(ctx, [&](const Str &s) { b.run(s.data(), (int)s.size(), true); }); dotted_family(ctx, [&](const Str &s) { b.run(s.data(), (int)s.size(), true); }); }
+    if (z.octets) { octet_sweep(ctx, [&](const Str &s) { b.run(s.data(), (int)s.size(), true); }); hexgroup_sweep(ctx, [&](const Str &s) { b.run(s.data(), (int)s.size(), true); }); dotted_family(ctx, [&](const Str &s) { b.run(s.data(), (int)s.size(), true); }); userinfo_ip_family(ctx, [&](const Str &s) { b.run(s.data(), (int)s.size(), true); }); }
     uint64_t idx = 0;
     shape_product(ctx.secondary ? 0 : ctx.quick() ? 1 : 2, [&](const Str &s) { if (ctx.mine(idx++)) b.run(s.data(), (int)s.size(), true); });
     { Both bs(ctx, 520); uint64_t si = 0; stretch_family(ctx.secondary ? 0 : ctx.quick() ? 1 : 2, [&](const Str &s) { if (ctx.mine(si++) && !ctx.expired()) { bs.run(s.data(), (int)s.size(), true); ctx.st.count("stretch_family"); } });
